@@ -85,6 +85,8 @@ pub fn run(s: &mut Session, ctx: &Ctx) {
             let l2 = Color::from_rgb(r, g, b + 1).luminance();
             acc.check(l2 > lum, "luminance-strictly-increasing", "Color::luminance", inp, || format!("b+1: {:?} vs {:?}", l2, lum));
         }
+        // is_light is "brightness above one half"
+        acc.check(c.is_light() == (c.brightness() > 0.5), "is-light-iff-brightness-above-half", "Color::is_light", inp, || format!("is_light {} brightness {:?}", c.is_light(), c.brightness()));
         // text colour
         let t = c.text_color();
         let tr = t.to_rgba();
